@@ -212,7 +212,7 @@ func genCase(rt *rapid.T) Case {
 	}
 	for i, k := 0, rapid.IntRange(1, 3).Draw(rt, "nimages"); i < k; i++ {
 		sz := rapid.SampledFrom([]int{64, 64, 256, 63}).Draw(rt, "imgsize")
-		c.Images = append(c.Images, imgen.Spec{Kind: rapid.SampledFrom([]string{"rgba", "gray", "ycbcr", "nrgba"}).Draw(rt, "imgkind"), W: sz, H: sz, Content: rapid.SampledFrom([]string{"noise", "smooth"}).Draw(rt, "content"), Seed: rapid.Uint32().Draw(rt, "seed"), Ratio: "444"})
+		c.Images = append(c.Images, imgen.Spec{Kind: rapid.SampledFrom([]string{"rgba", "gray", "ycbcr", "nrgba"}).Draw(rt, "imgkind"), W: sz, H: sz, Content: rapid.SampledFrom([]string{"noise", "smooth"}).Draw(rt, "content"), Seed: rapid.Uint32().Draw(rt, "seed"), Ratio: "444", Transp: rapid.IntRange(0, 2).Draw(rt, "transparent") == 0})
 	}
 	c.Procs = rapid.SampledFrom([]int{1, 2, 4, 16, 32}).Draw(rt, "procs")
 	c.Yield = rapid.Bool().Draw(rt, "yield")
